@@ -1092,8 +1092,10 @@ def calculate_cumulant_function(
         diag_mask = np.zeros((N, N), dtype=bool)
         diag_mask[1:, 1:] = ~np.eye(N-1, dtype=bool)
 
-        # Offdiagonal terms
-        cumulant_function[..., diag_mask] = decay_amplitudes[..., diag_mask]
+        # Offdiagonal terms K_ij = Gamma_ji (for auto-correlations and the
+        # sum over all pairs of noise sources Gamma is symmetric, but for a
+        # single cross-correlated pair it is not)
+        cumulant_function[..., diag_mask] = decay_amplitudes.swapaxes(-1, -2)[..., diag_mask]
 
         # Diagonal terms K_ii given by sum over diagonal of Gamma excluding
         # Gamma_ii. Since the Pauli basis is traceless, K_00 is zero, therefore
